@@ -41,6 +41,7 @@ type ConcCase struct {
 	Conn     string `json:"conn,omitempty"` // connector update, optional: created | deleted | mboxdeleted
 	Teardown string `json:"teardown"`       // drop1 | drop2 | logout2 | removeuser | close
 	Bound    int    `json:"bound"`          // preemption bound (-1: unbounded)
+	Free     bool   `json:"free,omitempty"` // no gating: all parties run freely under the Go scheduler (race-detector pass)
 	Hold     bool   `json:"hold,omitempty"` // state updates are held back and handed to a session when the explorer says so
 }
 
@@ -319,7 +320,12 @@ func runC19Conc(cs ConcCase, prefix []int, expect [][]string) *concExec {
 			return fail("unknown connector update " + cs.Conn)
 		}
 		calls = append(calls, call{add("call:conn"), func() string {
-			if r := w.Inject(0, sp); r.Err != "" {
+			switch r := w.Inject(0, sp); {
+			case r.Err == "connector closed":
+				return "closed" // the user was removed / the server closed before the update was taken
+			case r.TimedOut:
+				return "NACK timed out"
+			case r.Err != "":
 				return "NACK " + r.Err
 			}
 			return "ACK"
@@ -351,6 +357,45 @@ func runC19Conc(cs ConcCase, prefix []int, expect [][]string) *concExec {
 		return fail("logout2 and cmd2 use the same connection")
 	}
 
+	if cs.Free {
+		// free-running pass (used with a -race build): the explorer's gates would add happens-before edges that hide
+		// unsynchronised accesses, so nothing is parked here; the parties start together and must all complete
+		start := make(chan struct{})
+		for _, c := range calls {
+			c := c
+			go func() { <-start; c.p.done <- c.fn() }()
+		}
+		close(start)
+		var sts []string
+		for _, c := range calls {
+			select {
+			case st := <-c.p.done:
+				sts = append(sts, c.p.name+"="+st)
+			case <-time.After(watchdog):
+				x.viol = append(x.viol, enumt.Viol{Clause: "does-not-return", Sig: "free/" + c.p.name, Msg: fmt.Sprintf("case %s (free-running): %s did not complete within %v; gluon goroutines: %s", cs, c.p.name, watchdog, gluonDump())})
+				x.poisoned = true
+				return x
+			}
+		}
+		x.outcome = strings.Join(sts, " ")
+		okc, dump := withWatchdog("Close", func() {
+			if closed {
+				w.Closed()
+			} else {
+				_ = w.Shutdown()
+			}
+		})
+		if !okc {
+			x.viol = append(x.viol, enumt.Viol{Clause: "does-not-return", Sig: "Close/" + cs.Teardown, Msg: "Server.Close did not return within " + watchdog.String() + ": " + dump})
+			x.poisoned = true
+			return x
+		}
+		w.Close()
+		if left := leaked(base, 10*time.Second); len(left) > 0 {
+			x.viol = append(x.viol, enumt.Viol{Clause: "goroutine-leak", Sig: left[0], Msg: fmt.Sprintf("case %s (free-running): %d gluon goroutine(s) left after Close: %v", cs, len(left), left)})
+		}
+		return x
+	}
 	h.SetGate(true)
 	// collect: after the process has settled, note completions and attribute newly parked transactions
 	collect := func() bool {
@@ -587,6 +632,30 @@ func concCall(raw json.RawMessage) (any, error) {
 		}
 		if err := json.Unmarshal(rc, &cs); err != nil {
 			return nil, err
+		}
+		if cs.Free {
+			for k := 0; k < 4; k++ {
+				x := runC19Conc(cs, nil, nil)
+				if x.engine != "" {
+					return nil, fmt.Errorf("c19conc %s (free): %s", cs, x.engine)
+				}
+				if x.unstable != "" {
+					continue
+				}
+				res.Evaluations++
+				for _, v := range x.viol {
+					v.Input = cs
+					res.Viol = append(res.Viol, v)
+				}
+				outcomes[cs.String()+"|free|"+x.outcome] = true
+				if x.poisoned {
+					break
+				}
+			}
+			if len(res.Samples) < 2 {
+				res.Samples = append(res.Samples, map[string]any{"case": cs, "free_runs": 4})
+			}
+			continue
 		}
 		type item struct {
 			choices []int
